@@ -426,6 +426,26 @@ func installModels(e *Engine) {
 		return slowUnescape(e, fr, c, a, cc)
 	}
 	redirect("github.com/go-openapi/swag.ToGoName", "vrfModelIdent")
+	redirect("github.com/go-openapi/swag.ToJSONName", "vrfModelJSONName")
+	// swag.FromDynamicJSON(src, dst) between two values of the same type: a JSON round trip = deep copy (modulo the
+	// serialization normal form)
+	e.intercept["github.com/go-openapi/swag.FromDynamicJSON"] = func(e *Engine, fr *Frame, c *Ctx, a []Value, _ *ssa.CallCommon) (Value, bool) {
+		src, dst := a[0].(IfaceV), a[1].(IfaceV)
+		if len(src.Alts) != 1 || len(dst.Alts) != 1 || src.Alts[0].Typ == nil || dst.Alts[0].Typ == nil || !types.Identical(src.Alts[0].Typ, dst.Alts[0].Typ) {
+			unsup("FromDynamicJSON model: source and target must have the same pointer type")
+		}
+		sp, ok1 := src.Alts[0].V.(PtrV)
+		dp, ok2 := dst.Alts[0].V.(PtrV)
+		if !ok1 || !ok2 {
+			unsup("FromDynamicJSON model: pointers expected")
+		}
+		v := e.load(c, sp, "FromDynamicJSON")
+		if v == nil {
+			return nil, false
+		}
+		e.store(c, dp, e.deepCopy(c, v, map[int]int{}), "FromDynamicJSON")
+		return nilIface(), true
+	}
 	redirect("github.com/go-openapi/spec.ExpandSchema", "vrfModelExpandSchema")
 	redirect("github.com/go-openapi/spec.ResolveRefWithBase", "vrfModelResolveRef")
 	concreteOnly := func(name string, f func(string) string) {
